@@ -195,7 +195,7 @@ def run(chk):
     rng = common.Rng(chk.seed, PID)
     stats = {"cases": 0, "disagreements": 0, "graphs": 0}
     cases = []
-    n_graphs = 60 if chk.tier == "quick" else 1200
+    n_graphs = 60 if chk.tier == "quick" else 8000
     modes = ["all-at-once", "reverse", "shuffle", "one-by-one", "batched", "with-duplicates"]
     graphs = []
     if chk.replay:
